@@ -198,12 +198,20 @@ func (m *RWMutex) RLocker() Locker { return (*rlocker)(m) }
 // ---------------------------------------------------------------- WaitGroup
 
 type WaitGroup struct {
-	n   int
-	tok byte
+	n       int
+	waiters int
+	gen     uint64 // incremented whenever the counter reaches zero with waiters present
+	tok     byte
+	sema    byte // only an address: models the "first Add must be synchronized with Wait" rule for the race detector
+}
+
+type wgWait struct {
+	wg  *WaitGroup
+	gen uint64
 }
 
 //go:norace
-func (wg *WaitGroup) Ready(*rt.Task) bool { return wg.n == 0 }
+func (w wgWait) Ready(*rt.Task) bool { return w.wg.gen != w.gen }
 
 //go:norace
 func (wg *WaitGroup) Add(delta int) {
@@ -213,9 +221,21 @@ func (wg *WaitGroup) Add(delta int) {
 	if delta < 0 {
 		rt.RaceReleaseMerge(unsafe.Pointer(&wg.tok))
 	}
+	old := wg.n
 	wg.n += delta
+	if delta > 0 && old == 0 {
+		// like the real WaitGroup: the first increment must be synchronized with Wait
+		rt.RaceReadRange(unsafe.Pointer(&wg.sema), 1)
+	}
 	if wg.n < 0 {
 		panic("sync: negative WaitGroup counter")
+	}
+	if wg.waiters > 0 && delta > 0 && old == 0 {
+		panic("sync: WaitGroup misuse: Add called concurrently with Wait")
+	}
+	if wg.n == 0 && wg.waiters > 0 {
+		wg.gen++
+		wg.waiters = 0
 	}
 	rt.Seq()
 }
@@ -228,8 +248,18 @@ func (wg *WaitGroup) Wait() {
 	if rt.Aborting() {
 		return
 	}
-	for wg.n != 0 {
-		rt.Block(wg, 0, "sync.WaitGroup.Wait", -1)
+	if wg.n != 0 {
+		if wg.waiters == 0 {
+			rt.RaceWriteRange(unsafe.Pointer(&wg.sema), 1)
+		}
+		wg.waiters++
+		g := wg.gen
+		for wg.gen == g {
+			rt.Block(wgWait{wg, g}, 0, "sync.WaitGroup.Wait", -1)
+		}
+		if wg.n != 0 {
+			panic("sync: WaitGroup is reused before previous Wait has returned")
+		}
 	}
 	rt.RaceAcquire(unsafe.Pointer(&wg.tok))
 }
